@@ -225,11 +225,26 @@ func cmdCheck(args []string) int {
 		obls = append(obls, u.Obls...)
 		funcs = append(funcs, shortPkg(lm.Pkg)+".lemma/"+lm.Name)
 	}
+	// structural checks behind `immutable T.f` declarations (always part of the check: proofs lean on them)
+	for _, o := range e.immObls {
+		o.Props = []string{prop}
+		obls = append(obls, o)
+	}
 	// property-specific structural obligations (guarded-by scans etc.)
 	extraObls, extraUnits := e.propertyExtras(prop, *only)
 	obls = append(obls, extraObls...)
 	units = append(units, extraUnits...)
 
+	// obligations of some kinds belong to specific properties only
+	{
+		var kept []*Obligation
+		for _, o := range obls {
+			if kindAllowed(prop, o.Kind) {
+				kept = append(kept, o)
+			}
+		}
+		obls = kept
+	}
 	if len(obls) == 0 {
 		fmt.Printf("VACUOUS property=%s: no obligations were generated (no contract is tagged with this property)\n", prop)
 		return 2
@@ -433,4 +448,16 @@ func splitConj(t string) []string {
 		out = append(out, splitConj(inner[start:])...)
 	}
 	return out
+}
+
+// kindAllowed: blocking-operation obligations (B1/B2) are part of the completion/shutdown/leak properties only,
+// guarded-by obligations of the race property only.
+func kindAllowed(prop, kind string) bool {
+	switch {
+	case strings.HasPrefix(kind, "block."):
+		return prop == "C04" || prop == "C15" || prop == "C17" || prop == "C16"
+	case strings.HasPrefix(kind, "guard."):
+		return prop == "C20"
+	}
+	return true
 }
